@@ -499,6 +499,29 @@ impl Run {
         P: Part,
         S: Strategy<Value = P::Case> + Sync,
     {
+        // VP_KEEP_GOING=1 (diagnostic aid, not used by registered commands): after a failure, ignore its
+        // signature and run again, so that one run lists every distinct root cause.
+        if std::env::var("VP_KEEP_GOING").is_ok() {
+            for _ in 0..40 {
+                let before = self.violations.len();
+                self.prop_once(part, &strat, cases);
+                if self.violations.len() == before {
+                    break;
+                }
+                let sig = self.violations.last().unwrap().fail.sig.clone();
+                self.known.push(Known { property: self.id.to_string(), sig, text: "(keep-going)".into() });
+                let _ = self.parts.pop();
+            }
+            return;
+        }
+        self.prop_once(part, &strat, cases);
+    }
+
+    fn prop_once<P, S>(&mut self, part: &P, strat: &S, cases: u64)
+    where
+        P: Part,
+        S: Strategy<Value = P::Case> + Sync,
+    {
         let t0 = Instant::now();
         let threads = if cases < 64 { 1 } else { THREADS };
         let per = (cases as usize).div_ceil(threads);
@@ -508,7 +531,6 @@ impl Run {
         let seed = self.seed;
         std::thread::scope(|sc| {
             for w in 0..threads {
-                let strat = &strat;
                 let stop = &stop;
                 let results = &results;
                 let known = &known;
@@ -610,6 +632,27 @@ impl Run {
         P: Part,
         F: Fn(u64) -> Option<P::Case> + Sync,
     {
+        if std::env::var("VP_KEEP_GOING").is_ok() {
+            for _ in 0..60 {
+                let before = self.violations.len();
+                self.enumerate_once(part, n, exhaustive, &make);
+                if self.violations.len() == before {
+                    break;
+                }
+                let sig = self.violations.last().unwrap().fail.sig.clone();
+                self.known.push(Known { property: self.id.to_string(), sig, text: "(keep-going)".into() });
+                let _ = self.parts.pop();
+            }
+            return;
+        }
+        self.enumerate_once(part, n, exhaustive, &make);
+    }
+
+    fn enumerate_once<P, F>(&mut self, part: &P, n: u64, exhaustive: bool, make: &F)
+    where
+        P: Part,
+        F: Fn(u64) -> Option<P::Case> + Sync,
+    {
         let t0 = Instant::now();
         let threads = if n < 256 { 1 } else { THREADS as u64 };
         let stop = AtomicBool::new(false);
@@ -620,7 +663,6 @@ impl Run {
                 let stop = &stop;
                 let results = &results;
                 let known = &known;
-                let make = &make;
                 sc.spawn(move || {
                     let mut ev = Local::new();
                     let mut failure = None;
